@@ -343,6 +343,9 @@ def _proj(prop, line):
         return f"E={[e for e in E if e.startswith('entered') or e.startswith('serve-returned') or e.startswith('chan-')]} T={T} L={L} D={[d for d in D if '.decode:' in d or '.new:' in d]}"
     if prop == "C10":
         return f"F={[f for f in F if kind(f) == 'close']} E={E} T={T}"
+    if prop == "C11":
+        # what negotiation decides: settings, the revision carried by new_stream, and whether window updates flow
+        return f"F={[f for f in F if kind(f) in ('settings', 'new', 'wu')]} E={[e for e in E if e.startswith('settings') or e.startswith('chan-')]}"
     if prop == "C13":
         return f"F={F}"
     if prop == "C14":
@@ -662,7 +665,7 @@ PROPS = {
     "C11": {
         "lean_targets": ["Proofs.Props.C11"],
         "prop_files": ["Proofs/Props/C11.lean"],
-        "families": [CWORLD("C11"), SUPPORTED],
+        "families": [CWORLD("C11"), SWORLD("C11"), W1("C11"), SUPPORTED],
         "side_conditions": ["Proofs.Facts.supported_enabled", "Proofs.Facts.supported_disabled", "Proofs.Facts.settings_stream_id", "Proofs.Facts.negotiate_header"],
         "trusted_base": ["Negotiate.lean model of the revision loop in recvLoop and of supportedRevisions",
                          "L-frame client endpoint model TunnelModel/LFrame/Client.lean (settings phase)"],
